@@ -13,7 +13,7 @@ from harness.props.c09 import H, U, cm3, cv3, rand_rot
 
 ID = "C04"
 IMPORTS = "From Evo Require Import Num Linalg Lie Umeyama Traj Align.\n"
-COQ_TARGETS = ["theories/AlignProofs.vo", "generated/StepsC04.vo"]
+COQ_TARGETS = ["theories/AlignProofs.vo", "theories/AlignPath.vo", "generated/StepsC04.vo"]
 TRUSTED = ["model Evo.Align (on pose lists; the object/caches level is Evo.Traj, property C08) written by hand from "
            "PosePath3D.align / align_origin and the alignment stage of main_ape.ape / main_rpe.rpe",
            "np.linalg.svd as an oracle on a tape (its spec svd_at measured in C03's check on every case)",
